@@ -39,6 +39,7 @@ var manifestations = []manifest{
 	{"missing-outs", "hard", "mj", 0},
 	{"missing-key", "hard", "mj", 1},
 	{"wrong-type", "hard", "mj", 1},
+	{"misspelt-member", "hard", "mj", 1},
 	{"bad-stage-defs", "hard", "s", 0},
 	{"missing-stage-defs", "hard", "s", 0}, // detected after the heartbeat timeout (60 simulated minutes)
 	// Not in the table: "the job records _complete and then its process exits non-zero
@@ -49,7 +50,7 @@ var manifestations = []manifest{
 	{"extra-key", "benign", "mj", 1},
 }
 
-func applicable(m manifest, j *JobRec, st *StageDef) bool {
+func applicable(prog *Prog, m manifest, j *JobRec, st *StageDef) bool {
 	ph := map[string]string{"split": "s", "main": "m", "join": "j"}[j.Phase]
 	if !strings.Contains(m.phases, ph) {
 		return false
@@ -58,6 +59,18 @@ func applicable(m manifest, j *JobRec, st *StageDef) bool {
 		// chunk outputs of splitting stages are only validated at higher
 		// enforcement levels; not a failure the property demands
 		return false
+	}
+	if m.name == "misspelt-member" {
+		// needs a struct-valued output
+		has := false
+		for _, f := range st.Outs {
+			if prog.Struct(f.T.Base) != nil {
+				has = true
+			}
+		}
+		if !has {
+			return false
+		}
 	}
 	switch m.name {
 	case "missing-key", "wrong-type", "extra-key", "truncated-outs", "invalid-json", "missing-outs":
@@ -174,7 +187,7 @@ func c06Case(c *Ctx) {
 		st := prog.Stage(j.Stage)
 		var ms []manifest
 		for _, m := range manifestations {
-			if applicable(m, j, st) {
+			if applicable(prog, m, j, st) {
 				ms = append(ms, m)
 			}
 		}
@@ -319,6 +332,13 @@ func checkFailure(r *Run, twin *Run, ev *Eval, fj *JobRec, m manifest, persisten
 			}
 		}
 	}
+	for _, j := range r.Jobs {
+		if j.Fault == "void" {
+			// the outputs held no struct value to misspell: the job ran unharmed
+			r.Probes["fault-void"]++
+			return out
+		}
+	}
 	if injected == 0 {
 		// the job was never reached in this schedule (should not happen: same program)
 		add("fault-not-injected", "the selected job never ran")
@@ -443,7 +463,7 @@ func checkFailure(r *Run, twin *Run, ev *Eval, fj *JobRec, m manifest, persisten
 		if last != 0 {
 			oracle := "restart-after-fault-removed-failed"
 			switch m.name {
-			case "truncated-outs", "invalid-json", "missing-outs", "missing-key", "wrong-type", "bad-stage-defs", "missing-stage-defs":
+			case "truncated-outs", "invalid-json", "missing-outs", "missing-key", "wrong-type", "misspelt-member", "bad-stage-defs", "missing-stage-defs":
 				// the job itself recorded completion; martian attributes the error
 				// to the join or the fork and never re-runs the job
 				oracle = "restart-after-bad-outs-of-completed-job-failed"
